@@ -54,8 +54,74 @@ theorem C01_source_unpackable_refused (t c : Nat) : enc_packByte (t : Int) (c : 
   | none => simp [encRes]
   | some x => simp [encRes]
 
+/-! ### the integer writers and the list header: Python's `&` / `>>` on the translated side, `/` and `%` in the model -/
+
+theorem and255 (x : Nat) : x &&& 255 = x % 256 := Nat.and_two_pow_sub_one_eq_mod x 8
+theorem and15 (x : Nat) : x &&& 15 = x % 16 := Nat.and_two_pow_sub_one_eq_mod x 4
+theorem and127 (x : Nat) : x &&& 127 = x % 128 := Nat.and_two_pow_sub_one_eq_mod x 7
+
+/-- `(v & (m << k)) >> k` is the field of `v` at bit `k` under the mask `m` -/
+theorem bitfield (v mk k m : Nat) (h : mk >>> k = m) : (v &&& mk) >>> k = (v / 2 ^ k) &&& m := by
+  rw [Nat.shiftRight_and_distrib, h, Nat.shiftRight_eq_div_pow]
+
+theorem bitfield' (v mk k m : Nat) (h : mk >>> k = m) : (mk &&& v) >>> k = (v / 2 ^ k) &&& m := by
+  rw [Nat.and_comm]; exact bitfield v mk k m h
+
+theorem C01_source_writeInt8_is_the_model (v : Nat) : enc_writeInt8 v = .wrote (writeInt8 v) := by
+  simp only [enc_writeInt8, writeInt8, and255]
+
+theorem C01_source_writeInt16_is_the_model (v : Nat) : enc_writeInt16 v = .wrote (writeInt16 v) := by
+  simp only [enc_writeInt16, Py.Out.andThen, writeInt16]
+  rw [bitfield v 65280 8 255 (by decide), bitfield v 255 0 255 (by decide), and255, and255]
+  simp
+
+theorem C01_source_writeInt20_is_the_model (v : Nat) : enc_writeInt20 v = .wrote (writeInt20 v) := by
+  simp only [enc_writeInt20, Py.Out.andThen, writeInt20]
+  rw [bitfield' v 983040 16 15 (by decide), bitfield' v 65280 8 255 (by decide), bitfield v 255 0 255 (by decide), and255, and255, and15]
+  simp
+
+/-- (the model has no 24-bit writer of its own: the statement is the big-endian layout itself) -/
+theorem C01_source_writeInt24_layout (v : Nat) : enc_writeInt24 v = .wrote [v / 65536 % 256, v / 256 % 256, v % 256] := by
+  simp only [enc_writeInt24, Py.Out.andThen]
+  rw [bitfield v 16711680 16 255 (by decide), bitfield v 65280 8 255 (by decide), bitfield v 255 0 255 (by decide), and255, and255, and255]
+  simp
+
+theorem C01_source_writeInt31_is_the_model (v : Nat) : enc_writeInt31 v = .wrote (writeInt31 v) := by
+  simp only [enc_writeInt31, Py.Out.andThen, writeInt31]
+  rw [bitfield' v 2130706432 24 127 (by decide), bitfield' v 16711680 16 255 (by decide), bitfield' v 65280 8 255 (by decide),
+      bitfield v 255 0 255 (by decide), and255, and255, and255, and127]
+  simp
+
+/-- the list header: the model's bytes for every size the format has, refused (nothing written) from 65,536 on -/
+theorem C01_source_writeListStart_is_the_model (i : Nat) :
+    (i < 65536 → enc_writeListStart i = .wrote (writeListStart i)) ∧ (65536 ≤ i → enc_writeListStart i = .raised) := by
+  constructor
+  · intro h
+    unfold enc_writeListStart writeListStart
+    by_cases h0 : i = 0
+    · simp [h0]
+    · by_cases h1 : i < 256
+      · simp [h0, h1, C01_source_writeInt8_is_the_model, Py.Out.andThen]
+      · simp [h0, h1, h, C01_source_writeInt16_is_the_model, Py.Out.andThen]
+  · intro h
+    unfold enc_writeListStart
+    have h0 : i ≠ 0 := by omega
+    have h1 : ¬ i < 256 := by omega
+    have h2 : ¬ i < 65536 := by omega
+    simp [h0, h1, h2]
+
+/-- a token is one byte, or refused -/
+theorem C01_source_writeToken (t : Nat) : enc_writeToken t = if t ≤ 255 then .wrote [t] else .raised := by
+  unfold enc_writeToken; by_cases h : t ≤ 255 <;> simp [h]
+
+/-- what the translated writers emit are bytes -/
+theorem C01_source_writers_emit_bytes (v : Nat) :
+    BytesOK (writeInt8 v) ∧ BytesOK (writeInt16 v) ∧ BytesOK (writeInt20 v) ∧ BytesOK (writeInt31 v) := by
+  refine ⟨?_, ?_, ?_, ?_⟩ <;> intro b hb <;> simp [writeInt8, writeInt16, writeInt20, writeInt31] at hb <;> omega
+
 /-- non-vacuity: runs of the translated code -/
 example : enc_packByte 251 70 = .ret 15 ∧ dec_unpackByte 251 15 = .ret 70 ∧ enc_packByte 255 46 = .ret 11 ∧ dec_unpackByte 255 11 = .ret 46 ∧
-    enc_packByte 255 70 = .ret (-1) ∧ dec_unpackByte 255 12 = .raised := by decide
+    enc_packByte 255 70 = .ret (-1) ∧ dec_unpackByte 255 12 = .raised ∧
+    enc_writeInt20 0xABCDE = .wrote [0x0A, 0xBC, 0xDE] ∧ enc_writeListStart 300 = .wrote [249, 1, 44] ∧ enc_writeListStart 65536 = .raised := by decide
 
 end Yow.Coder
